@@ -28,6 +28,9 @@ from ramses_rf import Gateway
 GID = "18:006402"
 CTL = "01:145038"
 CTL2 = "01:222222"
+OTB = "10:100400"
+OT_ATTRS = {"boiler_output_temp": 0x19, "boiler_return_temp": 0x1C, "outside_temp": 0x1B, "dhw_flow_rate": 0x13,
+            "ch_water_pressure": 0x12, "dhw_temp": 0x1A, "dhw_setpoint": 0x38, "ch_max_setpoint": 0x39}  # all f8.8
 GRACE = 5.0  # "a few seconds' grace": the statement's bound is 2L + grace; the library uses 3 s
 
 MODES_2349 = {"00": "follow_schedule", "01": "advanced_override", "02": "permanent_override", "04": "temporary_override"}
@@ -80,7 +83,8 @@ def generate(plan) -> None:
     k["p_dup"] = 0.0 if ff else r.choice([0.0, 0.1, 0.3])
     k["p_noise"] = 0.0 if ff else r.choice([0.1, 0.3, 0.6])
     kinds = ["30C9_arr", "30C9_rp", "2309_arr", "2309_rp", "2349", "000A_arr", "000A_rp", "12B0", "0004", "2E04",
-             "trv_30C9", "trv_3150", "trv_12B0", "trv_2309", "thm_30C9", "bdr_0008", "3150_fc", "3150_fc"]
+             "trv_30C9", "trv_3150", "trv_12B0", "trv_2309", "thm_30C9", "bdr_0008", "3150_fc", "3150_fc",
+             "otb_3220", "otb_3220", "otb_3220"]
     if k["dhw"]:
         kinds += ["1260", "10A0", "1F41", "dhw_1260"]
     noise = ["rq", "w_2309", "foreign_30C9", "foreign_2309", "other_trv", "w_2349", "rq_2349", "foreign_000A", "3150_zone", "3150_zone"]
@@ -128,7 +132,7 @@ async def run(ctx) -> None:
     if k("dhw"):
         sch["stored_hotwater"] = {"sensor": dhws}
     gwy = Gateway("/dev/sim0", config={"disable_discovery": True, "enforce_known_list": False, "max_zones": 12},
-                  **{CTL: sch, "main_tcs": CTL})
+                  **{CTL: sch, "main_tcs": CTL, "orphans_heat": [OTB]})
     seen: list = []
     gwy.add_msg_handler(lambda m: seen.append(m))
     await gwy.start()
@@ -173,6 +177,10 @@ async def run(ctx) -> None:
         d = gwy.device_by_id.get(bdr)
         if d is not None:
             rd[("dev", bdr, "relay_demand")] = lambda d=d: d.relay_demand
+        d = gwy.device_by_id.get(OTB)
+        if d is not None:
+            for a in OT_ATTRS:
+                rd[("otb", OTB, a)] = lambda d=d, a=a: getattr(d, a)
         rd[("tcs", "", "heat_demand")] = lambda: tcs.heat_demand
         rd[("tcs", "", "system_mode")] = lambda: (tcs.system_mode or {}).get("system_mode") if tcs.system_mode is not None else None
         if k("dhw") and tcs.dhw is not None:
@@ -296,6 +304,18 @@ async def run(ctx) -> None:
             m = f"{counter[0] % 8:02X}"
             frame = f"{a} 2E04 008 {m}FFFFFFFFFFFF00"
             ups = [(("tcs", "", "system_mode"), MODES_2E04[m])]
+        elif kind == "otb_3220":  # OpenTherm READ-ACK, f8.8 data, even parity over the 4 bytes
+            counter[0] += 1
+            attr = sorted(OT_ATTRS)[counter[0] % len(OT_ATTRS)]
+            hb = 0 if counter[0] % 3 == 0 else (counter[0] * 7) % 90  # every third reading is exactly zero
+            lb = 0x80 if (counter[0] % 2 and hb) else 0x00
+            if (hb, lb) == (0x19, 0x80):  # 1980 (25.5) and 47AB are documented 'invalid value' sentinels of these data ids
+                hb += 1
+            body = (0x40 << 24) | (OT_ATTRS[attr] << 16) | (hb << 8) | lb
+            if bin(body).count("1") % 2:
+                body |= 0x80 << 24
+            frame = f"RP --- {OTB} {GID} --:------ 3220 005 00{body:08X}"
+            ups = [(("otb", OTB, attr), hb + (0.5 if lb else 0.0))]
         elif kind == "3150_fc":
             counter[0] += 1
             d = (counter[0] * 3) % 201
